@@ -12,6 +12,7 @@ import (
 
 	"github.com/awslabs/operatorpkg/object"
 	"github.com/awslabs/operatorpkg/status"
+	appsv1 "k8s.io/api/apps/v1"
 	corev1 "k8s.io/api/core/v1"
 	storagev1 "k8s.io/api/storage/v1"
 	apierrors "k8s.io/apimachinery/pkg/api/errors"
@@ -23,6 +24,7 @@ import (
 	clocktesting "k8s.io/utils/clock/testing"
 	"sigs.k8s.io/controller-runtime/pkg/client"
 	"sigs.k8s.io/controller-runtime/pkg/client/fake"
+	"sigs.k8s.io/controller-runtime/pkg/client/interceptor"
 	"sigs.k8s.io/controller-runtime/pkg/reconcile"
 
 	_ "sigs.k8s.io/karpenter/pkg/apis"
@@ -70,11 +72,17 @@ type Limit struct {
 //	node / claim / pod      the API object `name` is created or replaced by this version
 //	nodeGone / claimGone / podGone   the API object is removed
 //	rn / rc / rp            the informer controller of that kind reconciles key `name` (level-triggered: it reads the API now)
+//	rpf                     the Pod controller reconciles key `name` while reads of PersistentVolumes / StorageClasses fail
+//	                        (a transient API error): if the volume lookup is reached the reconcile returns an error and will be
+//	                        retried, so the key stays dirty
 //	mark / unmark / nominate  Cluster.MarkForDeletion / UnmarkForDeletion / NominateNodeForPod(pid)
 type Ev struct {
 	T    string `json:"t"`
 	Name string `json:"name,omitempty"`
 	Pid  string `json:"pid,omitempty"`
+	// mark / unmark: ONE call Cluster.MarkForDeletion(pids...) / UnmarkForDeletion(pids...) with several provider ids (a
+	// multi-node disruption command); non-empty Pids takes precedence over Pid
+	Pids []string `json:"pids,omitempty"`
 	// node + claim
 	Pool string  `json:"pool,omitempty"`
 	Cap  []int64 `json:"cap,omitempty"` // [cpu milli, memory, pods, ext]
@@ -121,10 +129,15 @@ func kindOf(t string) string {
 		return "n"
 	case "claim", "claimGone", "rc":
 		return "c"
-	case "pod", "podGone", "rp":
+	case "pod", "podGone", "rp", "rpf":
 		return "p"
 	}
 	return ""
+}
+
+// faults: switches read by the interceptor of the fake client
+type faults struct {
+	volGet bool // Get of a PersistentVolume / StorageClass returns an internal error
 }
 
 // ---------- world ----------
@@ -138,6 +151,7 @@ type world struct {
 	podC    *informer.PodController
 	cp      *fakecp.CloudProvider
 	clk     *clocktesting.FakeClock
+	faults  *faults // nil = no fault injection on this client
 }
 
 var baseCtx = options.ToContext(context.Background(), test.Options())
@@ -152,6 +166,7 @@ var smallScheme = func() *runtime.Scheme {
 	}
 	must(corev1.AddToScheme(s))
 	must(storagev1.AddToScheme(s))
+	must(appsv1.AddToScheme(s))
 	gv := schema.GroupVersion{Group: "karpenter.sh", Version: "v1"}
 	metav1.AddToGroupVersion(s, gv)
 	s.AddKnownTypes(gv, &v1.NodePool{}, &v1.NodePoolList{}, &v1.NodeClaim{}, &v1.NodeClaimList{})
@@ -159,13 +174,29 @@ var smallScheme = func() *runtime.Scheme {
 }()
 
 func newKube() client.Client {
+	c, _ := newKubeF()
+	return c
+}
+
+// newKubeF: the fake client plus the fault switches of its interceptor
+func newKubeF() (client.Client, *faults) {
+	f := &faults{}
 	return fake.NewClientBuilder().
 		WithScheme(smallScheme).
+		WithInterceptorFuncs(interceptor.Funcs{Get: func(ctx context.Context, c client.WithWatch, key client.ObjectKey, obj client.Object, opts ...client.GetOption) error {
+			if f.volGet {
+				switch obj.(type) {
+				case *corev1.PersistentVolume, *storagev1.StorageClass:
+					return apierrors.NewInternalError(fmt.Errorf("injected: transient read failure"))
+				}
+			}
+			return c.Get(ctx, key, obj, opts...)
+		}}).
 		WithStatusSubresource(&v1.NodeClaim{}, &v1.NodePool{}).
 		WithIndex(&corev1.Pod{}, "spec.nodeName", func(o client.Object) []string { return []string{o.(*corev1.Pod).Spec.NodeName} }).
 		WithIndex(&corev1.Node{}, "spec.providerID", func(o client.Object) []string { return []string{o.(*corev1.Node).Spec.ProviderID} }).
 		WithIndex(&v1.NodeClaim{}, "status.providerID", func(o client.Object) []string { return []string{o.(*v1.NodeClaim).Status.ProviderID} }).
-		Build()
+		Build(), f
 }
 
 func newWorld(kube client.Client) *world {
